@@ -12,7 +12,7 @@
    start-up comparisons: boundary observation); the clause "both contribute =>
    bounded by the peer cap" needs the peer cap below 2^62 ns, and
    C01_midpoint_refuted_beyond_2p62 shows that this is necessary. *)
-From ST Require Import Base.Ints Base.F64 Base.Sorting Model.NtpTime Model.Ftm Model.Sync Proofs.SyncProofs.
+From ST Require Import Base.Ints Base.F64 Base.Sorting Model.NtpTime Model.Units Model.Ftm Model.Sync Proofs.SyncProofs.
 From Coq Require Import ZArith List Reals.
 From Flocq Require Import Core.Core IEEE754.BinarySingleNaN.
 Import ListNotations.
@@ -150,6 +150,14 @@ Print Assumptions C01_fresh_round_is_ftm.
 Theorem C01_stale_round_still_int64 : forall old arr s' o, measure old arr = (s', o) -> length s' = length old /\ in_i64 o.
 Proof. exact measure_facts. Qed.
 Print Assumptions C01_stale_round_still_int64.
+
+(* SystemClock.Drift with the configured drift 0 (clocks.UnknownDrift) reports MaxInt64: the caps are then
+   beyond every int64 and nothing is ever clamped - the bound holds trivially.  That Drift is otherwise
+   drift x interval up to float64 rounding (2^-48 relative + 1 ns) is NOT proved in Coq; it is enforced by the
+   oracle C01_drift_ok on every Drift result the implementation produces in a run. *)
+Theorem C01_unknown_drift_is_maxint : forall d, sysclk_drift 0 d = max_i64.
+Proof. exact unknown_drift. Qed.
+Print Assumptions C01_unknown_drift_is_maxint.
 
 (* Boundary observation: with a drift allowance of 3e18 ns per round (95 years) and the default factors the
    two bounded values are further apart than 2^63, Midpoint wraps and the correction leaves the peer cap. *)
